@@ -40,7 +40,7 @@ var formulaFns = []string{
 	"(*Point).bytes", "(*Point).Bytes", "(*Point).BytesMontgomery", "(*Point).Set", "NewIdentityPoint", "NewGeneratorPoint",
 	"(*Point).extendedCoordinates",
 	"(*projLookupTable).FromP3", "(*affineLookupTable).FromP3", "(*nafLookupTable5).FromP3",
-	// "(*Point).ScalarMult", "(*Point).ScalarBaseMult" translate fine (64 unrolled iterations) but their ties are still being evaluated; (*nafLookupTable8).FromP3: 64 unrolled entries, the rfl tie needs minutes
+	"(*Point).ScalarMult", "(*Point).ScalarBaseMult", // 64 unrolled iterations each; (*nafLookupTable8).FromP3 is left out: 64 unrolled entries, the rfl tie needs minutes
 }
 
 // unexported helpers that fill a caller-provided buffer: parameter positions that may be written besides the receiver
@@ -1115,7 +1115,7 @@ func translateFormulas(repo string) (string, string, []string) {
 	}
 	var out, ties strings.Builder
 	out.WriteString("-- GENERATED by `go2lean formulas` from the working tree of /repo (symbolic execution of the go/ssa form). DO NOT EDIT.\n")
-	out.WriteString("import EdVerif.Impl.FormulaPrims\nset_option linter.unusedVariables false\nnamespace EdVerif.Gen.Formulas\nopen EdVerif.Impl EdVerif.Prims\n\n")
+	out.WriteString("import EdVerif.Impl.FormulaPrims\nset_option linter.unusedVariables false\nset_option maxRecDepth 100000\nnamespace EdVerif.Gen.Formulas\nopen EdVerif.Impl EdVerif.Prims\n\n")
 	ties.WriteString("-- GENERATED by `go2lean formulas`. DO NOT EDIT.\n-- One theorem per translated function and per aliasing pattern of its pointer parameters: the regenerated definition\n-- equals the hand-written specification `EdVerif.FormulaSpec.<name>` (EdVerif/Proofs/FormulaSpec.lean) applied to the\n-- argument VALUES, whichever parameters share storage.  Checked by `rfl` (definitional unfolding).\n")
 	ties.WriteString("import EdVerif.Gen.Formulas\nimport EdVerif.Proofs.FormulaSpec\nset_option maxRecDepth 100000\nnamespace EdVerif.Gen.FormulaTies\nopen EdVerif.Impl EdVerif.Prims EdVerif.Gen\n\n")
 	var problems []string
